@@ -292,7 +292,63 @@ type Guard struct {
 }
 
 // guardsAt returns the branch conditions that hold on every path reaching block b.
-func guardsAt(b *ssa.BasicBlock) []Guard {
+func guardsAt(b *ssa.BasicBlock) []Guard { return guardsAtDepth(b, 4) }
+
+// expandBoolPhi: go/ssa materialises `a && b` / `a || b` used as a value (switch-case expressions, assignments) as a phi of
+// constants and the last operand. Knowing the phi's value identifies the incoming edge, hence the operand's value and the
+// conditions that held where it was evaluated.
+func expandBoolPhi(g Guard, depth int) []Guard {
+	cond, pol := g.Cond, g.Pol
+	for {
+		if u, ok := cond.(*ssa.UnOp); ok && u.Op == token.NOT {
+			cond, pol = u.X, !pol
+			continue
+		}
+		break
+	}
+	ph, ok := cond.(*ssa.Phi)
+	if !ok || depth <= 0 || !isBool(ph.Type()) {
+		return nil
+	}
+	k, n := -1, 0
+	for i, e := range ph.Edges {
+		if c, isC := e.(*ssa.Const); isC && c.Value != nil && constant.BoolVal(c.Value) == !pol {
+			continue // this edge would give the opposite value
+		}
+		k = i
+		n++
+	}
+	if n != 1 {
+		return nil
+	}
+	var out []Guard
+	if _, isC := ph.Edges[k].(*ssa.Const); !isC {
+		out = append(out, Guard{ph.Edges[k], pol, g.If})
+	}
+	pred := ph.Block().Preds[k]
+	out = append(out, guardsAtDepth(pred, depth-1)...)
+	// the edge pred→phi block itself, when pred ends in a branch
+	if len(pred.Instrs) > 0 {
+		if iff, ok := pred.Instrs[len(pred.Instrs)-1].(*ssa.If); ok && pred.Succs[0] != pred.Succs[1] {
+			out = append(out, Guard{iff.Cond, pred.Succs[0] == ph.Block(), iff})
+		}
+	}
+	return out
+}
+
+func guardsAtDepth(b *ssa.BasicBlock, depth int) []Guard {
+	out := guardsAtRaw(b)
+	n := len(out)
+	for i := 0; i < n; i++ {
+		for _, e := range expandBoolPhi(out[i], depth) {
+			out = append(out, e)
+			out = append(out, expandBoolPhi(e, depth-1)...)
+		}
+	}
+	return out
+}
+
+func guardsAtRaw(b *ssa.BasicBlock) []Guard {
 	var out []Guard
 	for d := b.Idom(); d != nil; d = d.Idom() {
 		if len(d.Instrs) == 0 {
@@ -1390,6 +1446,91 @@ func (p *Prog) liftSites(s liftedSite, depth int) []liftedSite {
 			}
 		}
 		out = append(out, p.liftSites(liftedSite{cs.Caller, cs.Instr, vals}, depth-1)...)
+	}
+	return out
+}
+
+// structBuild is one construction of a struct value seen from function Fn: directly (stores into the fields of a fresh
+// allocation) or through a constructor (a static module callee that stores its parameters/constants into a fresh
+// allocation it returns). Fields maps the field to the value stored, expressed in Fn's terms.
+type structBuild struct {
+	Fn     *ssa.Function
+	At     ssa.Instruction // a store of the literal, or the constructor call
+	Fields map[*types.Var]ssa.Value
+	Via    *ssa.Function
+}
+
+func (p *Prog) structBuilds(fn *ssa.Function, depth int) []structBuild {
+	var out []structBuild
+	byBase := map[ssa.Value]*structBuild{}
+	var order []ssa.Value
+	eachInstr(fn, func(i ssa.Instruction) {
+		switch x := i.(type) {
+		case *ssa.Store:
+			fa, ok := x.Addr.(*ssa.FieldAddr)
+			if !ok {
+				return
+			}
+			if _, isAlloc := fa.X.(*ssa.Alloc); !isAlloc {
+				return
+			}
+			fv := fieldVar(fa.X.Type(), fa.Field)
+			if fv == nil {
+				return
+			}
+			b := byBase[fa.X]
+			if b == nil {
+				b = &structBuild{Fn: fn, At: x, Fields: map[*types.Var]ssa.Value{}}
+				byBase[fa.X] = b
+				order = append(order, fa.X)
+			}
+			b.Fields[fv] = x.Val
+		case *ssa.Call:
+			if depth <= 0 {
+				return
+			}
+			cal := staticCallee(x.Common())
+			if cal == nil || cal.Blocks == nil || !strings.HasPrefix(pkgPathOf(cal), Mod) || cal == fn {
+				return
+			}
+			// a constructor: single block-structure is not required, but every returned value must be its fresh allocation
+			subs := p.structBuilds(cal, depth-1)
+			if len(subs) != 1 || subs[0].Fn != cal {
+				return
+			}
+			rets := returnsOf(cal)
+			if len(rets) == 0 || cal.Signature.Results().Len() != 1 {
+				return
+			}
+			var base ssa.Value
+			if st, ok := subs[0].At.(*ssa.Store); ok {
+				base = st.Addr.(*ssa.FieldAddr).X
+			}
+			for _, ret := range rets {
+				if resolveLocal(ret.Results[0]) != base {
+					return
+				}
+			}
+			nb := structBuild{Fn: fn, At: x, Fields: map[*types.Var]ssa.Value{}, Via: cal}
+			for fv, v := range subs[0].Fields {
+				rv := resolveLocal(v)
+				if pr, ok := rv.(*ssa.Parameter); ok && pr.Parent() == cal {
+					for k, q := range cal.Params {
+						if q == pr && k < len(x.Call.Args) {
+							nb.Fields[fv] = x.Call.Args[k]
+						}
+					}
+				} else if _, ok := rv.(*ssa.Const); ok {
+					nb.Fields[fv] = rv
+				} else {
+					nb.Fields[fv] = nil // not expressible in the caller
+				}
+			}
+			out = append(out, nb)
+		}
+	})
+	for _, b := range order {
+		out = append(out, *byBase[b])
 	}
 	return out
 }
